@@ -89,7 +89,7 @@ def run_job(prop, spec, job, tier, workdir, workers, seed, known_open):
                  maxpaths=opt(e, job, spec, tier, "maxpaths", 100000), solver=opt(e, job, spec, tier, "solver", "z3"),
                  fallback=opt(e, job, spec, tier, "fallback", "z3-new"), queryms=opt(e, job, spec, tier, "queryms", 30000),
                  steps=opt(e, job, spec, tier, "steps", 3000000), witnesses=opt(e, job, spec, tier, "witnesses", 6),
-                 cross=opt(e, job, spec, tier, "cross", ""), budget=opt(e, job, spec, tier, "budget", 600), relaxtrunc=bool(opt(e, job, spec, tier, "relaxtrunc", False)))
+                 cross=opt(e, job, spec, tier, "cross", ""), budget=opt(e, job, spec, tier, "budget", 600), maxtimers=opt(e, job, spec, tier, "maxtimers", 6), relaxtrunc=bool(opt(e, job, spec, tier, "relaxtrunc", False)))
         groups.setdefault(json.dumps(o, sort_keys=True), []).append(e)
     results = []
     for gi, (okey, entries) in enumerate(groups.items()):
@@ -100,7 +100,7 @@ def run_job(prop, spec, job, tier, workdir, workers, seed, known_open):
                "-known", ",".join(sorted(known_open)), "-seed", str(seed)]
         if job.get("extra"):
             cmd += ["-extra", ",".join(job["extra"])]
-        for k in ("preempt", "unwind", "maxpaths", "solver", "fallback", "queryms", "steps", "witnesses", "cross", "budget"):
+        for k in ("preempt", "unwind", "maxpaths", "solver", "fallback", "queryms", "steps", "witnesses", "cross", "budget", "maxtimers"):
             cmd += ["-" + k, str(o[k])]
         if o["relaxtrunc"]:
             cmd += ["-relaxtrunc"]
